@@ -217,6 +217,39 @@ def build_drive(flavor="dev"):
         return binp
 
 
+def build_oracle():
+    """Build the reference binary (naga, wgpu-core, real wgpu).  Independent of the tree under
+    test, so it is built once."""
+    d = os.path.join(HARNESS, "oracle")
+    with Lock("oracle"):
+        _cargo_lock_into(d)
+        tdir = os.path.join(TARGET, "oracle")
+        p = subprocess.run(["cargo", "build", "--offline"], cwd=d,
+                           env=env(CARGO_TARGET_DIR=tdir), stdout=subprocess.PIPE,
+                           stderr=subprocess.PIPE, text=True)
+        binp = os.path.join(tdir, "debug", "oracle")
+        if p.returncode != 0 or not os.path.exists(binp):
+            raise Inconclusive("building oracle failed:\n%s" % p.stderr[-5000:])
+        return binp
+
+
+def run_oracle(mode, jobs, name, timeout=1800):
+    binp = build_oracle()
+    jp = os.path.join(WORK, name + ".ojobs.jsonl")
+    rp = os.path.join(WORK, name + ".ores.jsonl")
+    os.makedirs(os.path.dirname(jp), exist_ok=True)
+    with open(jp, "w") as f:
+        for j in jobs:
+            f.write(json.dumps(j) + "\n")
+    if os.path.exists(rp):
+        os.remove(rp)
+    p = subprocess.run([binp, mode, jp, rp], env=env(), stdout=subprocess.PIPE,
+                       stderr=subprocess.PIPE, text=True, timeout=timeout)
+    if p.returncode != 0:
+        raise Inconclusive("oracle %s failed rc=%s: %s" % (mode, p.returncode, p.stderr[-3000:]))
+    return read_jsonl(rp)
+
+
 def run_drive(binp, jobs, name, threads=1, shuffle=None, markers=False, timeout=1800,
               extra_env=None, cwd=None, wrapper=None):
     """Write jobs to work/<name>.jobs.jsonl, run `drive run`, return the list of result dicts
